@@ -8,15 +8,17 @@ LEVEL_TEXT = (
     "optional post-processing is applied to BOTH images in the stated order: _remove_isolated_cells (a non-wall pixel whose four neighbours are wall or outside becomes wall, nothing else "
     "changes) and then _extend_pixels (each pixel doubled in both directions inside a one-pixel wall frame) - both helpers proved pointwise for every image size against their real bodies. "
     "PROVED too: RasterizedMazeDataset.__getitem__(idx) is process_maze_rasterized_input_target of self.mazes[idx] (python index semantics) with the dataset's own three configuration flags, each "
-    "in its own position (the callee is a function of its arguments: congruence). NOT proved: batch stacking order (get_batch / torch.stack) - decided by the bounded stand-in: input/target "
-    "images recomputed independently from as_pixels for all 8 option combinations on solved mazes (incl. isolated cells, length-1 solutions), batches over enumerated index lists."
+    "in its own position (the callee is a function of its arguments), and get_batch(idxs): for every index list within range (None = all items) over mazes of one grid shape, slot k of result[0] / result[1] is the input / target image of "
+    "item idxs[k], in the order requested (the comprehension, zip(*...) transposition and the three torch.stack calls of the real body; torch.stack's equal-shape and non-empty demands are obligations). "
+    "The bounded stand-in stays as a cross-check: input/target "
+"images recomputed independently from as_pixels for all 8 option combinations on solved mazes (incl. isolated cells, length-1 solutions), batches over enumerated index lists."
 )
-LEVEL_NOTE = "Trusted: pyvc encoding; torch.tensor(np.array([...])) keeps values and layout; boolean-mask assignment and np.pad / np.repeat library models."
+LEVEL_NOTE = "Trusted: pyvc encoding; torch.tensor(np.array([...])) keeps values and layout; torch.stack(seq)[k] is seq[k]; iterating a tensor yields its slices along the first axis; boolean-mask assignment and np.pad / np.repeat library models."
 TECHNIQUE = "contract-based deductive verification of the image construction and both post-processing helpers (pointwise array obligations over the real AST, z3) + bounded run-time checking for batches and dataset-level indexing"
 CONTRACT_MODULES = ["contracts.pixels", "contracts.raster"]
 PROVE = [("maze_dataset/maze/lattice_maze.py", "_remove_isolated_cells"), ("maze_dataset/dataset/rasterized.py", "_extend_pixels"),
          ("maze_dataset/maze/lattice_maze.py", "LatticeMaze.as_pixels"), ("maze_dataset/dataset/rasterized.py", "process_maze_rasterized_input_target"),
-         ("maze_dataset/dataset/rasterized.py", "RasterizedMazeDataset.__getitem__")]
+         ("maze_dataset/dataset/rasterized.py", "RasterizedMazeDataset.__getitem__"), ("maze_dataset/dataset/rasterized.py", "RasterizedMazeDataset.get_batch")]
 ASSUMPTIONS = ["the solution of the solved maze is a lattice walk in the grid from its start to its end (what SolvedMaze construction and the generators guarantee; as_pixels asserts adjacency)"]
 EXPLANATION = "see DESIGN.md C17"
 
